@@ -62,7 +62,7 @@ DEEP = {
     "C07": ["CoseProofs.Deep.TagScan", "CoseProofs.Deep.Accept", "CoseProofs.Deep.Verifies"],
     "C08": ["CoseProofs.Deep.Headers", "CoseProofs.Deep.RoundTrip", "CoseProofs.Deep.NestedRoundTrip", "CoseProofs.Deep.NestedBuckets", "CoseProofs.Deep.CsigRoundTrip"],
     "C09": ["CoseProofs.Deep.Reencode", "CoseProofs.Deep.SignMsg", "CoseProofs.Deep.ClearRaw", "CoseProofs.Deep.NestedClosures", "CoseProofs.Deep.CsigClosures", "CoseProofs.Deep.SignClear"],
-    "C11": ["CoseProofs.Deep.SignMsg"],
+    "C11": ["CoseProofs.Deep.SignMsg", "CoseProofs.Props.C20", "CoseProofs.Ties.C11"],
     "C10": ["CoseProofs.Deep.Tbs", "CoseProofs.Deep.Tamper", "CoseProofs.Ties.C10"],
     "C12": ["CoseProofs.Deep.Keys", "CoseProofs.Deep.Chain", "CoseProofs.Deep.WireClosure", "CoseProofs.Deep.NestedClosures", "CoseProofs.Ties.C12"],
     "C13": ["CoseProofs.Deep.TagScan", "CoseProofs.Deep.Headers", "CoseProofs.Deep.Verifies", "CoseProofs.Ties.C13"],
